@@ -109,6 +109,7 @@ package main
 //@   ghostset ghostAuthLevel int = ai.AuthType if err == nil
 //@   ghostset ghostAuthIssuedAt int64 = timeNanos(ai.IssuedAt) if err == nil
 //@   ghostset ghostVerifiedBits int = 0
+//@   ghostset ghostBootstrapCleared bool = false
 //@   ensures err == nil ==> ai.AuthType & requiredAuthType != 0                                             #C06.kind @C06
 //@   ensures err == nil ==> viaCookie(state, ai) || viaTLS(state, r, ai) || viaPassword(state, ai)           #C06.established @C06,C01,C04
 //@   ensures err == nil && r.Method != "GET" && getOriginOrReferrer(r) != "" && r.Host != "" ==> urlHostOf(getOriginOrReferrer(r)) == r.Host  #C06.csrf @C06
@@ -284,3 +285,18 @@ package main
 //@   atcall webauthn.WebAuthn).ValidateLogin sets ghostVerifiedBits int (wa *webauthn.WebAuthn, user webauthn.User, session webauthn.SessionData, parsed *protocol.ParsedCredentialAssertionData, cred *webauthn.Credential, err error) :: ghostVerifiedBits | AuthTypeU2F | AuthTypeFIDO2 if err == nil && ghostProfileUser == ghostAuthUser && isType[*userProfile](user) && asType[*userProfile](user) == ghostProfile && hasKey(state.localAuthData, ghostAuthUser) && same(session, *state.localAuthData[ghostAuthUser].WebAuthnChallenge)
 //@   atcall protocol.ParsedCredentialAssertionData).Verify sets ghostVerifiedBits int (parsed *protocol.ParsedCredentialAssertionData, storedChallenge string, rpID string, rpOrigin string, appID string, verifyUser bool, credentialBytes []byte, err error) :: ghostVerifiedBits | AuthTypeU2F if err == nil && ghostProfileUser == ghostAuthUser && hasKey(state.localAuthData, ghostAuthUser) && storedChallenge == state.localAuthData[ghostAuthUser].WebAuthnChallenge.Challenge
 //@   atcall (*RuntimeState).updateAuthCookieAuthlevel requires (s2 *RuntimeState, w2 http.ResponseWriter, r2 *http.Request, username string, authlevel int) :: !hasKey(state.localAuthData, ghostAuthUser)  #C05.webauthn-challenge-consumed @C05
+
+// bootstrap OTP: the hash compared must be the unexpired one stored in the authenticated user's own profile, and
+// it must have been cleared (and saved) before the session is upgraded
+//@ ghost var ghostBootstrapHash []byte
+//@ ghost var ghostBootstrapHashOK bool
+//@ ghost var ghostBootstrapCleared bool
+//@ func (*RuntimeState).userBootstrapOtpHash
+//@   ghostset ghostBootstrapHash []byte = ret0
+//@   ghostset ghostBootstrapHashOK bool = profile == ghostProfile && len(ret0) > 0
+//@   ensures len(ret0) > 0 ==> !fromCache && timeNanos(profile.BootstrapOTP.ExpiresAt) > nowNanos()        #C05.bootstrap-unexpired @C05
+//@   ensures len(ret0) > 0 ==> len(profile.U2fAuthData) == 0 && len(profile.TOTPAuthData) == 0               #C05.bootstrap-only-without-tokens @C05
+//@ func (*RuntimeState).BootstrapOtpAuthHandler
+//@   atcall crypto/subtle.ConstantTimeCompare sets ghostVerifiedBits int (x []byte, y []byte, res int) :: ghostVerifiedBits | AuthTypeBootstrapOTP if res == 1 && ghostBootstrapHashOK && same(y, ghostBootstrapHash) && ghostProfileUser == ghostAuthUser
+//@   atcall RuntimeState).SaveUserProfile sets ghostBootstrapCleared bool (s2 *RuntimeState, username string, profile *userProfile, err error) :: true if err == nil && username == ghostAuthUser && profile == ghostProfile && old(len(profile.BootstrapOTP.Sha512Hash)) == 0
+//@   atcall (*RuntimeState).updateAuthCookieAuthlevel requires (s2 *RuntimeState, w2 http.ResponseWriter, r2 *http.Request, username string, authlevel int) :: ghostBootstrapCleared  #C05.bootstrap-cleared @C05
